@@ -55,6 +55,37 @@ Theorem c15_tls_config_wiring :
     tc_alpn t = [ALPN_H2].
 Proof. exact @tls_config_wiring. Qed.
 
+(* the verified name is the configured domain or else the host of the endpoint URI - never the
+   host of the origin override, whether Endpoint::origin was called before tls_config (any
+   starting endpoint [e0], its [e_origin] arbitrary) ... *)
+Theorem c15_verified_name_never_from_origin :
+  forall (cert ca dname : Type) (valid_name : dname -> bool) (native_certs webpki_roots : list ca)
+         (f : features) (e0 : @Endpoint cert ca dname) (c : ClientTlsConfig) (e : Endpoint),
+  endpoint_tls_config valid_name native_certs webpki_roots f e0 c = inr e ->
+  e_scheme e = e_scheme e0 /\ e_host e = e_host e0 /\ e_origin e = e_origin e0 /\
+  exists (t : TlsConnector) (d : dname),
+    e_tls e = Some t /\
+    effective_domain c (e_host e0) = Some d /\ valid_name d = true /\ tc_domain t = d /\
+    tc_roots t = configured_roots native_certs webpki_roots f c /\
+    tc_identity t = c_identity c /\ tc_assume_http2 t = c_assume_http2 c /\
+    tc_alpn t = [ALPN_H2].
+Proof. exact @tls_config_wiring_gen. Qed.
+
+(* ... or after it: the origin changes nothing about who is reached and who is served *)
+Theorem c15_origin_irrelevant :
+  forall (cert ca dname : Type) (rc : @TlsConnector cert ca dname -> @server cert ca -> hs_client)
+         (ra : TlsAcceptor -> option cert -> hs_server) (f : features)
+         (o : option (scheme * option dname)) (e : Endpoint) (srv : server),
+  connect_outcome rc f (apply_origin o e) srv = connect_outcome rc f e srv /\
+  request_reaches_handler rc ra f (apply_origin o e) srv = request_reaches_handler rc ra f e srv /\
+  peer_certs_exposed rc ra f (apply_origin o e) srv = peer_certs_exposed rc ra f e srv.
+Proof.
+  exact (fun cert ca dname rc ra f o e srv =>
+           conj (origin_irrelevant_connect rc f o e srv)
+             (conj (origin_irrelevant_handler rc ra f o e srv)
+                   (origin_irrelevant_peer_certs rc ra f o e srv))).
+Qed.
+
 (* root store only from configured CAs; platform / webpki roots only with their feature AND flag *)
 Theorem c15_roots_only_configured :
   forall (cert ca dname : Type) (native_certs webpki_roots : list ca) (f : features)
@@ -248,6 +279,40 @@ Proof.
            @served_over_https_implies_all cert ca dname ck nk cco vn nat web rc ra Hc Ha).
 Qed.
 
+(* the same with Endpoint::origin called before and/or after tls_config: the certificate is
+   matched against the configured domain or the URI host [h], whatever the origins are *)
+Theorem c15_served_over_https_implies_all_with_origin :
+  forall (cert ca dname : Type) (chain_ok : list ca -> cert -> bool) (name_ok : dname -> cert -> bool)
+         (client_cert_ok : ca -> cert -> bool) (valid_name : dname -> bool)
+         (native_certs webpki_roots : list ca)
+         (rc : @TlsConnector cert ca dname -> @server cert ca -> hs_client)
+         (ra : TlsAcceptor -> option cert -> hs_server),
+  connect_sound chain_ok name_ok rc -> accept_sound client_cert_ok ra ->
+  forall (f : features) (o_before o_after : option (scheme * option dname)) (h : option dname)
+         (c : ClientTlsConfig) (e0 : Endpoint) (srv : server),
+  f_tls f = true ->
+  endpoint_tls_config valid_name native_certs webpki_roots f
+    (apply_origin o_before (endpoint_from_uri Https h)) c = inr e0 ->
+  let e := apply_origin o_after e0 in
+  request_reaches_handler rc ra f e srv = true ->
+  exists (a : TlsAcceptor) (d : dname) (alpn : option proto),
+    srv = STls a /\ effective_domain c h = Some d /\
+    chain_ok (configured_roots native_certs webpki_roots f c) (a_cert a) = true /\
+    name_ok d (a_cert a) = true /\
+    connect_outcome rc f e srv = ConnTls alpn /\
+    (alpn = Some ALPN_H2 \/ c_assume_http2 c = true) /\
+    match a_verifier a with
+    | NoClientAuth => peer_certs_exposed rc ra f e srv = None
+    | WebPki root allow =>
+        (exists ci : cert, c_identity c = Some ci /\ client_cert_ok root ci = true /\
+                           peer_certs_exposed rc ra f e srv = Some ci) \/
+        (allow = true /\ c_identity c = None /\ peer_certs_exposed rc ra f e srv = None)
+    end.
+Proof.
+  exact (fun cert ca dname ck nk cco vn nat web rc ra Hc Ha =>
+           @served_over_https_implies_all_o cert ca dname ck nk cco vn nat web rc ra Hc Ha).
+Qed.
+
 (* The complete matrix (finite domain, bound in the statement: every value of the record
    [cell] = 3 roots x 3 domain configurations x 2 URI hosts x 2 server certificates x 3 server
    ALPN lists x assume_http2 x 4 client-auth configurations x 3 client identities = 2592 cells,
@@ -297,7 +362,7 @@ Example c15_transmitted_is_reachable :
   exists e srv, is_https (e_scheme e) = true /\ call_transmitted (t_outcome e srv) = true /\
                 t_reaches e srv = true.
 Proof.
-  exists {| e_scheme := Https; e_host := Some DExample;
+  exists {| e_scheme := Https; e_host := Some DExample; e_origin := None;
             e_tls := Some {| tc_roots := [CA1]; tc_identity := None; tc_alpn := [ALPN_H2];
                              tc_domain := DExample; tc_assume_http2 := false |} |},
          (mk_srv SrvExample None false).
@@ -309,6 +374,8 @@ Print Assumptions c15_https_without_tls_fails.
 Print Assumptions c15_client_auth_enforced.
 Print Assumptions c15_peer_certs_iff_presented.
 Print Assumptions c15_served_over_https_implies_all.
+Print Assumptions c15_verified_name_never_from_origin.
+Print Assumptions c15_served_over_https_implies_all_with_origin.
 Print Assumptions c15_builder_preserves_tls.
 Print Assumptions c15_built_server_enforces_client_auth.
 Print Assumptions c15_matrix_complete.
